@@ -24,8 +24,9 @@ impl TypeInference {
                     ConstraintReason::BinaryOp { op: op.to_string() },
                 ));
 
-                self.constraints.push(Constraint::equal(
+                self.constraints.push(Constraint::arith_result(
                     left.ty.clone(),
+                    right.ty.clone(),
                     result_type.clone(),
                     span,
                     ConstraintReason::BinaryOp { op: op.to_string() },
@@ -62,8 +63,9 @@ impl TypeInference {
                     ConstraintReason::BinaryOp { op: op.to_string() },
                 ));
 
-                self.constraints.push(Constraint::equal(
+                self.constraints.push(Constraint::arith_result(
                     left.ty.clone(),
+                    right.ty.clone(),
                     result_type.clone(),
                     span,
                     ConstraintReason::BinaryOp { op: op.to_string() },
